@@ -63,8 +63,14 @@ func (c *Collection) Snapshot(dst io.Writer) error {
 		return err
 	}
 
+	// Whatever happens below, stop recording, then close and delete the temporary log
+	defer func() {
+		c.recorderClose()
+		recorder.Close()
+		os.Remove(recorder.Name())
+	}()
+
 	// Take a snapshot of the current state
-	defer os.Remove(recorder.Name())
 	if _, err := c.writeState(s2.NewWriter(dst)); err != nil {
 		return err
 	}
@@ -80,6 +86,8 @@ func (c *Collection) recorderOpen() (log *commit.Log, err error) {
 		dst := (*unsafe.Pointer)(unsafe.Pointer(&c.record))
 		ptr := unsafe.Pointer(log)
 		if !atomic.CompareAndSwapPointer(dst, nil, ptr) {
+			log.Close()
+			os.Remove(log.Name())
 			return nil, fmt.Errorf("column: unable to snapshot, another one might be in progress")
 		}
 	}
